@@ -109,6 +109,27 @@ PROPS["C09"] = {
     "assumptions": [],
 }
 
+PROPS["C10"] = {
+    "pkg": "p10",
+    "level": "exploration",
+    "level_text": "Differential search: ~2.4*10^4 (quick) / ~5*10^5 (thorough) generated programs that are traces of their own control flow "
+                  "(every block prints a marker on entry and its variables on exit, loops print their variable), with random nestings of "
+                  "if/else-if/else, while, the four for forms and function calls, shadowing, break, early return, recursion and mutual "
+                  "recursion, compared line by line with the reference interpreter.",
+    "level_note": "Range arithmetic is asserted only where repeated addition and multiplication agree exactly; step 0 must give the "
+                  "documented panic. Programs whose reference run exceeds its step or size budget are skipped (counted as skipped:fuel).",
+    "technique": "property-based differential testing of generated control-flow trace programs against a reference interpreter (rapid)",
+    "tests": [
+        {"name": "TestProp", "quick": {"shards": 8, "checks": 3000}, "thorough": {"shards": 16, "checks": 30000}},
+    ],
+    "rule": "cases: programs with block depth 2-4; declarations may shadow a variable of an enclosing block (possibly with another type, "
+            "possibly after the outer one was used in the same block); break under if inside loops; return from nested blocks; numeric "
+            "ranges from {plain, negative step, fractional, empty, reversed, zero step}; recursive and mutually recursive functions "
+            "called before their definition. Non-trivial = shadowing, or an early return, or a break, or >= 2 kinds of numeric range; "
+            "distinct by source text.",
+    "assumptions": [],
+}
+
 NOT_APPLICABLE = {}
 
 ENGINES = [
